@@ -410,7 +410,7 @@ fn c09(tier: Tier) -> i32 {
     rep.sample(json!({"value_of_k": "[\"f32\", [\"x\", \"NaN\"], [\"y\"]]"}));
     rep.sample(json!({"value_of_k": inputs[inputs.len() / 3].1}));
     let mut cov = serde_json::Map::new();
-    cov.insert("rule".into(), json!("every value of the C09 file pipeline (token strings, range specs, JSON number classes, JSON shapes, foreign-key forms) plus non-finite / extreme float bounds and literals, in a two-locale project that also holds values reducing to nothing at every nested position (range branch, plural form, component body), plus 16 whole files around plural merging (empty / non-identifier base keys, null / number / group forms) and repeated keys, plus every `inherits` map over three non-default locales (nobody / any other locale, loops included) x which of them define a key, through the real code generator load_locales() (macro crate sources compiled into this binary) in worker processes; oracle: Ok with tokens that parse as a Rust file (syn), or Err with non-empty message; never a panic, a dead process or a generator still silent after 30 s (watchdog)"));
+    cov.insert("rule".into(), json!("every value of the C09 file pipeline (token strings, range specs, values no range branch may hold in every branch position of typed and untyped ranges, JSON number classes, JSON shapes, foreign-key forms) plus non-finite / extreme float bounds and literals, in a two-locale project that also holds values reducing to nothing at every nested position (range branch, plural form, component body), plus 16 whole files around plural merging (empty / non-identifier base keys, null / number / group forms) and repeated keys, plus every `inherits` map over three non-default locales (nobody / any other locale, loops included) x which of them define a key, through the real code generator load_locales() (macro crate sources compiled into this binary) in worker processes; oracle: Ok with tokens that parse as a Rust file (syn), or Err with non-empty message; never a panic, a dead process or a generator still silent after 30 s (watchdog)"));
     cov.insert("exhaustive".into(), json!(true));
     cov.insert("outcome_classes".into(), json!(*classes.lock().unwrap()));
     let _ = std::fs::remove_dir_all(&root);
